@@ -176,7 +176,7 @@ C43_CONFIGS = [
     ("c43_t2_r1", "quick", 2, 1, 22, 0, False),
     ("c43_t2_r1_spurious2", "quick", 2, 1, 40, 2, False),
     ("c43_t2_r2", "thorough", 2, 2, 50, 0, True),
-    ("c43_t3_r1", "thorough", 3, 1, 50, 0, True),
+    ("c43_t3_r1", "quick", 3, 1, 50, 0, True),  # 3 lockers: lost wake-ups that need a barging third thread
     ("c43_t3_r1_spurious1", "thorough", 3, 1, 60, 1, True),
 ]
 
